@@ -474,6 +474,9 @@ def _set_name_and_type(param, infer_type, word_wrap):
         _param["typ"] = "Optional[{}]".format(_param["typ"][: -len(google_opt)])
     if "doc" in _param and not _param["doc"]:
         del _param["doc"]
+    if word_wrap and isinstance(_param.get("typ"), str) and "\n" in _param["typ"]:
+        # A word-wrapped type line is one expression: re-join it the same way as wrapped prose
+        _param["typ"] = " ".join(map(str.strip, _param["typ"].split("\n")))
 
     # if "doc" in _param and isinstance(_param["doc"], list):
     #     _param["doc"] = "".join(_param["doc"])
